@@ -25,6 +25,14 @@ STYLES = [
     ("tight", "/*{m}*/", False),
     ("uni", "// {m} gr\u00fc\u00dfe \u00b5m \u4e16\u754c note", True),
 ]
+# only under wrap_comments: a two-line comment whose first line has to be wrapped and whose second
+# line starts with a token that cannot be broken (a digest, a long path)
+WRAP2 = ("wrap2", "// {m} alpha beta gamma delta epsilon zeta eta theta iota kappa lambda mu nu xi omicron pi "
+         "rho sigma tau upsilon phi chi psi omega\n// 0123456789abcdef0123456789abcdef0123456789abcdef"
+         "0123456789abcdef0123456789abcdef0123456789abcdef and a tail of words", True)
+WRAP3 = ("wrap3", "// {m} alpha beta gamma delta epsilon zeta eta theta iota kappa lambda mu nu xi omicron pi "
+         "rho sigma tau upsilon phi chi psi omega\n// some_crate::some_module::another_module::"
+         "yet_another_module::and_one_more_module::SomeVeryLongTypeNameIndeed tail words", True)
 CLASSES = ["items", "stmts", "fields", "variants", "arms", "params", "args", "instmt"]
 MARK = re.compile(r"cq\d+x")
 WORD = re.compile(r"[A-Za-z0-9_]+")
@@ -213,7 +221,9 @@ def run(tier, seed, replay=None):
                     tb = gtext.encode()
                     for si, sl in enumerate(ss):
                         hp = core.fnv(f"{opt}={val}:{gname}:{si}".encode())
-                        for st in (STYLES[hp % len(STYLES)], STYLES[-1]):
+                        more = (WRAP2, WRAP3) if (opt == "wrap_comments" and sl["how"] != "eol"
+                                                 and sl["cls"] in ("items", "stmts")) else ()
+                        for st in (STYLES[hp % len(STYLES)], STYLES[-1]) + more:
                             if sl["how"] == "eol" and not st[2] and st[0] != "block":
                                 continue
                             c = st[1].format(m="cq0x")
